@@ -1,5 +1,293 @@
-"""stub"""
+"""C03 — CDecay yields the exact conjugate of the referenced table (DESIGN.md §4 C03)."""
+from __future__ import annotations
+
+import ast
+
+from ..core import guards
+from ..core import pyfacts as pf
+from ..core.defuse import is_identity
+from ..core.effects import effects
+from ..core.larkfacts import grammar_facts
+from ..core.match import txt
 from ..core.source import AnchorMissing
-PROP="C03"
+from .common import DEC, DECGRAMMAR, PUTIL, builder_sites, ckey, enclosing_try_parts, fn, returns, stmt_of, where
+
+PROP = "C03"
+FILES = [DEC, PUTIL, DECGRAMMAR]
+EXPLANATION = (
+    "C03.1 with the include-conjugates switch off the call that creates conjugate tables is unreachable (three-valued "
+    "evaluation of its guard, the stored switch resolved to the parse() argument), and with it on it is reached; C03.2 "
+    "every tree handed to the conjugating visitor and every tree added as a conjugate table is a copy.deepcopy; C03.3 "
+    "the visitor writes particle names only (who-may-write inside the class, callbacks ⊆ {particle}); C03.4 the new name "
+    "is find_charge_conjugate_match(old name, table); C03.5 the three exits of that function carry exactly the stated "
+    "conditions (forward hit, reverse hit, database fall-through); C03.6 Decay wins over CDecay, misses add nothing; "
+    "C03.7 copies are made before conjugates.")
+NOT_DECIDED = ["that the database conjugate is right (C04, third-party data)", "equality of the produced table with a reference conjugation"]
+ACC = "DecFileParser._add_charge_conjugate_decays"
+
+
 def run(ctx, ss):
-    raise AnchorMissing("rules not built yet")
+    for r, f in (("C03.1", c03_1), ("C03.2", c03_2), ("C03.3", c03_3), ("C03.4", c03_4), ("C03.5", c03_5),
+                 ("C03.6", c03_6), ("C03.7", c03_7)):
+        ctx.guard(r, f, ss)
+
+
+def c03_1(ctx, ss):
+    ff, flow = fn(ss, DEC, "DecFileParser.parse")
+    calls = [c for c in pf.calls_in(ff.node) if txt(c.func) == "self._add_charge_conjugate_decays"]
+    if not calls:
+        ctx.violation("C03.1", ckey(ff, None, "no-call"), where(ff, ff.node), "parse() never creates conjugate tables")
+        return
+    if "include_ccdecays" not in ff.params:
+        raise AnchorMissing("parse() has no include_ccdecays parameter")
+    for c in calls:
+        st = stmt_of(ff, c)
+        conds = [cd for cd in guards.path_conditions(ff.node, st) if cd[0] in ("if", "while")]
+
+        def resolve(e):
+            # self._include_ccdecays -> value stored earlier in parse()
+            class R(ast.NodeTransformer):
+                def visit_Attribute(self, n):
+                    if isinstance(n.value, ast.Name) and n.value.id == "self" and isinstance(n.ctx, ast.Load):
+                        v = guards.self_attr_value(ff, flow, n.attr, st)
+                        if v is not None:
+                            return flow.expand(v)
+                    return self.generic_visit(n)
+            import copy
+            return R().visit(copy.deepcopy(flow.expand(e)))
+        rconds = [(k, resolve(e), p) for k, e, p in conds]
+
+        def atom(val):
+            def f(e):
+                if isinstance(e, ast.Name) and e.id == "include_ccdecays":
+                    return val
+                return None
+            return f
+        off = guards.reachable_under(rconds, atom(False))
+        on = guards.reachable_under(rconds, atom(True))
+        k = ckey(ff, None, "switch")
+        if off is False:
+            ctx.holds("C03.1", k + " :: off", where(ff, c), "include_ccdecays=False ⇒ _add_charge_conjugate_decays is unreachable", len(conds) + 1)
+        else:
+            ctx.violation("C03.1", k + " :: off", where(ff, c),
+                          f"with include_ccdecays=False conjugate tables can still be created (guard: `{'; '.join(txt(e)[:60] for _, e, _ in rconds) or 'none'}`)")
+        if on is True:
+            ctx.holds("C03.1", k + " :: on", where(ff, c), "include_ccdecays=True ⇒ the call is reached on every normal path", len(conds) + 1)
+        else:
+            ctx.violation("C03.1", k + " :: on", where(ff, c), "with include_ccdecays=True the creation of conjugate tables additionally depends on something else")
+
+
+def c03_2(ctx, ss, rule="C03.2"):
+    ef = effects(ss)
+    ff, flow = fn(ss, DEC, ACC)
+    visits = [c for c in pf.calls_in(ff.node) if isinstance(c.func, ast.Attribute) and c.func.attr in ("visit", "visit_topdown")
+              and "ChargeConjugateReplacement" in txt(c.func.value)]
+    if not visits:
+        ctx.violation(rule, ckey(ff, None, "no-visit"), where(ff, ff.node), "no tree is ever conjugated")
+        return
+    for c in visits:
+        r = ef.root(flow, c.args[0]) if c.args else ("unknown", "?")
+        k = ckey(ff, None, "visited-is-copy")
+        if r == ("fresh", "deepcopy"):
+            ctx.holds(rule, k, where(ff, c), "the tree conjugated in place is a copy.deepcopy of the source table", 2)
+        else:
+            ctx.violation(rule, k, where(ff, c), f"the tree conjugated in place is not a deep copy ({r[0]} {r[1]}): the SOURCE table (or shared decay lines) is rewritten")
+    ext = [c for c in pf.calls_in(ff.node) if isinstance(c.func, ast.Attribute) and c.func.attr in ("extend", "append")
+           and txt(c.func.value) == "self._parsed_decays"]
+    if not ext:
+        ctx.violation(rule, ckey(ff, None, "added"), where(ff, ff.node), "conjugate tables are never added")
+    for c in ext:
+        r = ef.root(flow, c.args[0], 1 if c.func.attr == "extend" else 0)
+        k = ckey(ff, None, "added-is-copy")
+        if r == ("fresh", "deepcopy"):
+            ctx.holds(rule, k, where(ff, c), "every tree added as a conjugate table is a deep copy", 2)
+        else:
+            ctx.violation(rule, k, where(ff, c), f"a tree added as a conjugate table is not a deep copy ({r[0]} {r[1]})")
+    # the visited trees are the ones that are added
+    for c in visits:
+        a = c.args[0]
+        if isinstance(a, ast.Name):
+            d = flow.defs_of(a)
+            src = txt(d[0].value) if len(d) == 1 and d[0].value is not None else "?"
+            added = [txt(x.args[0]) for x in ext if x.args]
+            if src in added:
+                ctx.holds(rule, ckey(ff, None, "same-list"), where(ff, c), "the copies that are conjugated are the ones that are added", 1)
+            else:
+                ctx.violation(rule, ckey(ff, None, "same-list"), where(ff, c), f"conjugation runs over `{src}` but `{added}` is added to the tables")
+
+
+def c03_3(ctx, ss):
+    ef = effects(ss)
+    gf = grammar_facts(ss, DECGRAMMAR)
+    mf = pf.module_facts(ss, DEC)
+    cf = mf.classes.get("ChargeConjugateReplacement")
+    if cf is None:
+        raise AnchorMissing("class ChargeConjugateReplacement not found")
+    pub = sorted(m for m in cf.methods if not m.startswith("_"))
+    extra = [m for m in pub if m != "particle" and m in gf.tree_names]
+    k = f"{DEC}:ChargeConjugateReplacement"
+    if extra:
+        m = cf.methods[extra[0]]
+        ctx.violation("C03.3", k + f" :: callback:{extra[0]}", where(m, m.node),
+                      f"the conjugating visitor also has a callback for `{extra[0]}` nodes: conjugation no longer rewrites particle names only")
+    else:
+        ctx.holds("C03.3", k + " :: callbacks", f"src/decaylanguage/{DEC}:{cf.node.lineno}", f"grammar-rule callbacks of the visitor: {[m for m in pub if m in gf.tree_names]}", len(pub))
+    n = 0
+    for name, m in cf.methods.items():
+        flow = __import__("sa.core.defuse", fromlist=["flow_of"]).flow_of(ss, m)
+        for w in ef.local[m.key]:
+            n += 1
+            r = w.root
+            kk = ckey(m, None, w.how)
+            if name == "__init__" and r[0] == "state":
+                ctx.holds("C03.3", kk, where(m, w.node), "constructor initialises its own table", 1)
+            elif name == "particle" and r == ("param", "tree") and w.how.replace(" ", "") == "storetree.children[0].value":
+                ctx.holds("C03.3", kk, where(m, w.node), "writes the LABEL token value of the visited particle node", 1)
+            elif r[0] == "state" and r[1] == "self.charge_conj_defs":
+                ctx.holds("C03.3", kk, where(m, w.node), "memoises a name pair in its own table", 1)
+            else:
+                ctx.violation("C03.3", kk, where(m, w.node), f"the conjugating visitor performs another write: {w.how} on {r[0]} {r[1]}")
+    ctx.count("write_sites", n)
+    ctx.floor("C03.3", "write sites in the visitor", n, 3)
+
+
+def c03_4(ctx, ss):
+    from ..core.treetypes import TreeTyper
+    ff, flow = fn(ss, DEC, "ChargeConjugateReplacement.particle")
+    gf = grammar_facts(ss, DECGRAMMAR)
+    stores = [s for s in pf.iter_stmts(ff.node.body) if isinstance(s, ast.Assign) and txt(s.targets[0]).endswith(".value")]
+    if len(stores) != 1:
+        raise AnchorMissing("particle(): expected one store to a token value")
+    s = stores[0]
+    v = flow.expand(s.value)
+    k = ckey(ff, None, "new-name")
+    tgt = flow.expand(s.targets[0])
+    ok = isinstance(v, ast.Call) and txt(v.func) == "find_charge_conjugate_match" and len(v.args) == 2 \
+        and txt(v.args[0]) == txt(tgt) and txt(v.args[1]) == "self.charge_conj_defs"
+    if ok:
+        ctx.holds("C03.4", k, where(ff, s), "token.value := find_charge_conjugate_match(token.value, self.charge_conj_defs)", 3)
+    else:
+        ctx.violation("C03.4", k, where(ff, s), f"the particle name is replaced by `{txt(v)[:120]}`, not by the conjugate match of the same token")
+    tt = TreeTyper(gf)
+    val = tt.check(tgt, {"tree": tt.tree("particle")})
+    if tt.errors or val.sig() != "particle/0:LABEL":
+        ctx.violation("C03.4", k + " :: type", where(ff, s), f"the written location is `{val.sig()}` {tt.errors[:1]}, not the LABEL token of the particle node")
+    else:
+        ctx.holds("C03.4", k + " :: type", where(ff, s), "the written location is particle/0:LABEL on every child word", 1)
+    # the table handed to the visitor is the file's ChargeConj table
+    af, aflow = fn(ss, DEC, ACC)
+    ctor = [c for c in pf.calls_in(af.node) if isinstance(c.func, ast.Name) and c.func.id == "ChargeConjugateReplacement"]
+    ok = bool(ctor) and all(aflow.text(c.keywords[0].value if c.keywords else c.args[0]) == "self.dict_charge_conjugates()" for c in ctor if c.keywords or c.args)
+    (ctx.holds if ok else ctx.violation)("C03.4", ckey(af, None, "table"), where(af, ctor[0] if ctor else af.node),
+                                          "the visitor gets self.dict_charge_conjugates()" if ok else "the visitor is not given the file's ChargeConj table")
+
+
+def c03_5(ctx, ss):
+    ff, flow = fn(ss, DEC, "find_charge_conjugate_match")
+    p_name, p_tab = ff.params[0], ff.params[1]
+    rets = returns(ff)
+    kinds = {}
+    for r in rets:
+        v = flow.expand(r.value)
+        conds = [(txt(flow.expand(e)), pol) for kind, e, pol in guards.path_conditions(ff.node, r) if kind in ("if", "while")]
+        tv = txt(v)
+        if tv == f"{p_tab}.get({p_name})":
+            kinds["forward"] = (r, conds)
+        elif tv == f"__elem__({p_tab}.items())[0]":
+            kinds["reverse"] = (r, conds)
+        elif tv == f"charge_conjugate_name({p_name})":
+            kinds["database"] = (r, conds)
+        else:
+            ctx.violation("C03.5", ckey(ff, None, "exit:" + tv[:60]), where(ff, r), f"unexpected exit `return {tv[:100]}`")
+    want = {
+        "forward": {(p_tab, True), (f"{p_tab}.get({p_name}) is not None", True)},
+        "reverse": {(p_tab, True), (f"__elem__({p_tab}.items())[1] == {p_name}", True), (f"{p_tab}.get({p_name}) is not None", False)},
+        "database": set(),
+    }
+    alt = {"reverse": {(p_tab, True), (f"{p_name} == __elem__({p_tab}.items())[1]", True), (f"{p_tab}.get({p_name}) is not None", False)}}
+    for kname, w in want.items():
+        k = ckey(ff, None, f"exit:{kname}")
+        if kname not in kinds:
+            ctx.violation("C03.5", k, where(ff, ff.node), f"the {kname} exit of find_charge_conjugate_match is missing "
+                          + ("(ChargeConj pairs are read in one orientation only)" if kname == "reverse" else ""))
+            continue
+        r, conds = kinds[kname]
+        got = set(conds)
+        # tolerate the equivalent `is not None` / truthiness spellings of the table test
+        norm = {(t.replace(f"{p_tab} is not None", p_tab), p) for t, p in got}
+        if norm == w or norm == alt.get(kname):
+            ctx.holds("C03.5", k, where(ff, r), f"{kname} exit guarded exactly by {sorted(t for t, _ in w) or 'nothing'}", len(w) + 1)
+        else:
+            extra = norm - w
+            missing = w - norm
+            ctx.violation("C03.5", k, where(ff, r),
+                          f"the {kname} exit has path conditions {sorted(norm)}: extra {sorted(extra)} missing {sorted(missing)} "
+                          "(some names are matched in one orientation only / under an additional condition)")
+    # order: forward before reverse before database
+    if all(x in kinds for x in want):
+        cfg = flow.cfg
+        nf, nr, nd = (cfg.node_of(kinds[x][0]) for x in ("forward", "reverse", "database"))
+        ok = not cfg.reachable(nr, nf) and not cfg.reachable(nd, nf) and not cfg.reachable(nd, nr)
+        (ctx.holds if ok else ctx.violation)("C03.5", ckey(ff, None, "order"), where(ff, ff.node),
+                                              "table forward, then table reverse, then database" if ok else "the three lookups are not tried in the order forward / reverse / database")
+
+
+def c03_6(ctx, ss):
+    ff, flow = fn(ss, DEC, ACC)
+    # (a) names removed from the CDecay list are exactly those with a Decay block
+    removes = [c for c in pf.calls_in(ff.node) if isinstance(c.func, ast.Attribute) and c.func.attr == "remove"]
+    k = ckey(ff, None, "decay-wins")
+    ok = False
+    for c in removes:
+        lst = flow.expand(c.func.value)
+        if txt(lst) != "self.list_charge_conjugate_decays()":
+            continue
+        a = flow.expand(c.args[0])
+        # element of [n for n in cdecays if n in mother_names_decays]
+        t = txt(a)
+        if t.startswith("__elem__([") and " if " in t and "get_decay_mother_name(" in t and "self._parsed_decays" in t and " in [" in t:
+            comp = a.args[0]
+            g = comp.generators[0]
+            if len(g.ifs) == 1 and isinstance(g.ifs[0], ast.Compare) and isinstance(g.ifs[0].ops[0], ast.In) \
+                    and txt(g.iter) == "self.list_charge_conjugate_decays()":
+                from .common import enclosing
+                lps = enclosing(ff, c, (ast.For,))
+                conds = [cd for cd in guards.path_conditions(ff.node, stmt_of(ff, c), stop_at=lps[0] if lps else None) if cd[0] == "if"]
+                if lps and not conds:
+                    ok = True
+    if ok:
+        ctx.holds("C03.6", k, where(ff, removes[0]), "a CDecay name that also has a Decay block is dropped from the work list (Decay wins)", 3)
+    else:
+        ctx.violation("C03.6", k, where(ff, ff.node), "CDecay names that already have a Decay block are not (exactly) the ones removed from the work list")
+    # (b) source lookup inside try; append only on success; miss list in the handler
+    apps = [(st, args) for st, m, args in builder_sites(ff, flow, "trees_to_conjugate") if m == "append"]
+    if not apps:
+        # find the list the deep copies are made from
+        raise AnchorMissing("_add_charge_conjugate_decays: list of source trees not found")
+    for st, args in apps:
+        parts = enclosing_try_parts(ff, st)
+        v = flow.expand(args[0])
+        t = txt(v)
+        kk = ckey(ff, None, "source")
+        want = "self._parsed_decays[{__elem__(enumerate(self._parsed_decays))[1].children[0].children[0].value: __elem__(enumerate(self._parsed_decays))[0] for i, t in enumerate(self._parsed_decays)}[find_charge_conjugate_match(__elem__(self.list_charge_conjugate_decays()), self.dict_charge_conjugates())]]"
+        if t == want:
+            ctx.holds("C03.6", kk, where(ff, st), "source tree = table of find_charge_conjugate_match(CDecay name, ChargeConj table)", 4)
+        else:
+            ctx.violation("C03.6", kk, where(ff, st), f"the source table of a CDecay is `{t[:160]}`")
+        if parts and parts[0][1] == "body" and all(any(isinstance(x, ast.Call) and txt(x.func).endswith(".append") for s in h.body for x in ast.walk(s)) for h in parts[0][0].handlers):
+            ctx.holds("C03.6", ckey(ff, None, "miss"), where(ff, st), "a CDecay without a source table is recorded as a miss and adds nothing", 2)
+        else:
+            ctx.violation("C03.6", ckey(ff, None, "miss"), where(ff, st), "a CDecay without a source table is not handled as a miss")
+
+
+def c03_7(ctx, ss):
+    ff, flow = fn(ss, DEC, "DecFileParser.parse")
+    cfg = flow.cfg
+    cp = [stmt_of(ff, c) for c in pf.calls_in(ff.node) if txt(c.func) == "self._add_decays_to_be_copied"]
+    cc = [stmt_of(ff, c) for c in pf.calls_in(ff.node) if txt(c.func) == "self._add_charge_conjugate_decays"]
+    if not cp or not cc:
+        raise AnchorMissing("parse(): copy / conjugate steps not found")
+    ok = all(not cfg.reachable(cfg.node_of(b), cfg.node_of(a)) and cfg.reachable(cfg.node_of(a), cfg.node_of(b)) for a in cp for b in cc)
+    (ctx.holds if ok else ctx.violation)("C03.7", ckey(ff, None, "copy<cc"), where(ff, cc[0]),
+                                          "CopyDecay tables exist before conjugates are created (a copy can be the source of a CDecay)" if ok
+                                          else "conjugates can be created before the CopyDecay tables exist")
